@@ -423,6 +423,21 @@ func OthersBlocked(except string) bool {
 	return true
 }
 
+// AnyBlockedSend reports whether some thread is parked on a channel send that cannot
+// proceed (its consumer is slow): real time passes in such a state.
+func AnyBlockedSend() bool {
+	s := S
+	if s == nil {
+		return false
+	}
+	for _, t := range s.threads {
+		if !t.done && t.op.kind == opSend && !s.threadEnabled(t) {
+			return true
+		}
+	}
+	return false
+}
+
 // LiveNamed counts the threads whose name starts with prefix and that have not finished.
 func LiveNamed(prefix string) int {
 	n := 0
